@@ -76,6 +76,11 @@ func checkC06(p *Program, r *Report) {
 					}
 					k, isK := constInt(bo.Y)
 					ld, isL := bo.X.(*ssa.UnOp)
+					if !isK || !isL {
+						// mirrored spelling: compressMagic != decoded[33]
+						k, isK = constInt(bo.X)
+						ld, isL = bo.Y.(*ssa.UnOp)
+					}
 					if !isK || !isL || k != 1 {
 						continue
 					}
@@ -335,6 +340,32 @@ func c06net(p *Program, r *Report, dec *ssa.Function, decoded ssa.Value) {
 							}
 						}
 					}
+				}
+			}
+		}
+	}
+	// make + index form: buf := make([]byte, n ≥ 1, …); buf[0] = w.netID  (third benign round)
+	if !okStr {
+		for _, b := range str.Blocks {
+			for _, in := range b.Instrs {
+				st, ok := in.(*ssa.Store)
+				if !ok {
+					continue
+				}
+				ia, ok := st.Addr.(*ssa.IndexAddr)
+				if !ok {
+					continue
+				}
+				ms, isMs := ia.X.(*ssa.MakeSlice)
+				k, isK := constInt(ia.Index)
+				if !isMs || !isK || k != 0 {
+					continue
+				}
+				if n, isN := constInt(ms.Len); !isN || n < 1 {
+					continue
+				}
+				if f, _, ok := fieldLoad(st.Val); ok && f == F {
+					okStr = true
 				}
 			}
 		}
